@@ -7,7 +7,7 @@
    in the store reads back with its values, through the file. *)
 From Coq Require Import List Arith NArith ZArith Bool Lia.
 From Jbk Require Import Base.ListExtra Base.Bytes Base.Crc Base.Parser Base.Prog Base.Utf8 Format.Structs Format.Roundtrips
-  Manifest.SetLocation Content.Pack Content.FilePack Dir.Layout Dir.Descr Dir.Values Dir.EntryStore.
+  Manifest.SetLocation Content.Pack Content.FilePack Dir.Layout Dir.Descr Dir.Values Dir.Variants Dir.EntryStore Dir.EntryStoreVariants.
 Import ListNotations.
 Open Scope N_scope.
 
@@ -91,7 +91,91 @@ Proof.
   replace (so_off so <? lenN data + 4) with false by (symmetry; apply N.ltb_ge; exact Fit).
   unfold placed in Dat. cbn [pbind run]. rewrite Dat. cbn [pbind run]. reflexivity.
 Qed.
+
+(* a value store whose tail and data lie where its pointer says *)
+Theorem value_store_at k so tail t data :
+  nth_error vptrs k = Some so -> wf_sized_offset so ->
+  so_size so = lenN tail -> placed f (base + so_off so) tail ->
+  parse_all p_vs_tail tail = Ok t ->
+  lenN data = match t with VTPlain sz | VTIndexed _ sz => sz end ->
+  lenN data + 4 <= so_off so -> placed f (base + so_off so - lenN data - 4) data ->
+  run f (dp_value_store_p dp (N.of_nat k)) =
+    Ok (match t with VTPlain _ => VSPlain data | VTIndexed offs _ => VSIndexed offs data end).
+Proof.
+  intros Hk Wso Ssz Tl Pl Ld Fit Dat.
+  destruct P as [Wh Kd Hd Wdh Dhd Nv Ne Ni Vp Ep Ip].
+  assert (Ik : (k < length vptrs)%nat) by (apply nth_error_Some; congruence).
+  unfold dp_value_store_p. cbn [dp dp_dh dp_vptrs dp_base].
+  replace (dh_value_count dh <=? N.of_nat k) with false by (symmetry; apply N.leb_gt; lia).
+  unfold ptr_at. rewrite (ptr_table_nth vptrs k so Hk).
+  rewrite <- (app_nil_r (ser_sized_offset so)), (p_sized_offset_ser so [] Wso). cbn [lift pbind run].
+  unfold vstore_at_p. cbn [pbind run].
+  unfold placed in Tl. rewrite <- Ssz in Tl. rewrite Tl. rewrite Pl. cbn [lift pbind run].
+  unfold placed in Dat.
+  destruct t as [sz|offs sz]; rewrite <- Ld;
+    (replace (so_off so <? lenN data + 4) with false by (symmetry; apply N.ltb_ge; exact Fit));
+    cbn [pbind run]; rewrite Dat; cbn [pbind run]; reflexivity.
+Qed.
+
+(* an index header lying where its pointer says *)
+Theorem index_at k so ih :
+  nth_error iptrs k = Some so -> wf_sized_offset so ->
+  ix_store ih < 2 ^ 32 -> ix_count ih < 2 ^ 32 -> ix_offset ih < 2 ^ 32 -> length (ix_free ih) = 4%nat ->
+  ix_prop ih < 256 -> wf_name (ix_name ih) ->
+  so_size so = lenN (ser_index_header ih) -> placed f (base + so_off so) (ser_index_header ih) ->
+  run f (dp_index_p dp (N.of_nat k)) = Ok ih.
+Proof.
+  intros Hk Wso H1 H2 H3 H4 H5 H6 Ssz Pl.
+  unfold dp_index_p. cbn [dp dp_iptrs dp_base].
+  unfold ptr_at. rewrite (ptr_table_nth iptrs k so Hk).
+  rewrite <- (app_nil_r (ser_sized_offset so)), (p_sized_offset_ser so [] Wso). cbn [lift pbind run].
+  unfold placed in Pl. rewrite <- Ssz in Pl. rewrite Pl.
+  rewrite (parse_all_ser p_index_header ser_index_header ih (p_index_header_ser ih [] H1 H2 H3 H4 H5 H6)). reflexivity.
+Qed.
 End Read.
+
+(* ---- value store tails as the writer emits them ---- *)
+Definition ser_vs_tail_plain (sz : N) : list N := [0] ++ le_enc 8 sz.
+Definition ser_vs_tail_indexed (w : nat) (lens : list N) : list N :=
+  [1] ++ le_enc 8 (N.of_nat (length lens)) ++ [N.of_nat w] ++ le_enc w (sumN lens) ++ flat_map (le_enc w) (removelast (ends lens)).
+
+Theorem p_vs_tail_plain sz r : sz < 2 ^ 64 -> p_vs_tail (ser_vs_tail_plain sz ++ r) = Ok (VTPlain sz, r).
+Proof.
+  intros H. unfold p_vs_tail, ser_vs_tail_plain. cbn [app]. rewrite p_u_1 by lia. cbn [bind N.eqb].
+  rewrite p_u_enc by exact H. reflexivity.
+Qed.
+
+Theorem p_vs_tail_indexed w lens r :
+  (1 <= w <= 8)%nat -> lens <> [] -> N.of_nat (length lens) <= 65535 -> sumN lens < 256 ^ N.of_nat w ->
+  p_vs_tail (ser_vs_tail_indexed w lens ++ r) = Ok (VTIndexed (0 :: ends lens) (sumN lens), r).
+Proof.
+  intros Hw Hne Hlen Hds. unfold p_vs_tail, ser_vs_tail_indexed. cbn [app].
+  rewrite p_u_1 by lia. cbn [bind N.eqb Pos.eqb].
+  rewrite <- !app_assoc.
+  rewrite p_u_enc by (change (256 ^ N.of_nat 8) with (2 ^ 64); lia). cbn [bind app].
+  rewrite p_u_1 by lia. cbn [bind].
+  replace ((N.of_nat w =? 0) || (8 <? N.of_nat w)) with false
+    by (symmetry; apply orb_false_iff; split; [apply N.eqb_neq|apply N.ltb_ge]; lia).
+  rewrite !Nat2N.id. rewrite <- ?app_assoc.
+  rewrite p_u_enc by assumption. cbn [bind].
+  replace (65535 <? N.of_nat (length lens)) with false by (symmetry; apply N.ltb_ge; lia).
+  replace (length lens - 1)%nat with (length (removelast (ends lens)))
+    by (rewrite removelast_length; unfold ends; now rewrite ends_from_length).
+  rewrite p_many_u_enc.
+  2:{ apply Forall_forall. intros e He. apply In_removelast in He. unfold ends in He.
+      apply ends_from_bound in He. lia. }
+  cbn [bind].
+  replace (forallb (fun o => o <=? sumN lens) (removelast (ends lens))) with true.
+  2:{ symmetry. apply forallb_forall. intros e He. apply In_removelast in He. unfold ends in He.
+      apply ends_from_bound in He. apply N.leb_le. lia. }
+  cbn [negb].
+  replace (N.of_nat (length lens) =? 0) with false by (symmetry; apply N.eqb_neq; destruct lens; [congruence|cbn; lia]).
+  assert (E : removelast (ends lens) ++ [sumN lens] = ends lens).
+  { unfold ends. replace (sumN lens) with (last (ends_from 0 lens) 0)
+      by (rewrite (ends_from_last 0 lens Hne); lia).
+    symmetry. apply app_removelast_last. destruct lens; [congruence|discriminate]. }
+  rewrite E. reflexivity.
+Qed.
 
 (* ---- end to end: what the writer put in a store without variants, read through the file ---- *)
 Theorem stored_entries_read_back_through_the_file
@@ -130,6 +214,86 @@ Proof.
   split; [|split; [exact He1|exact He2]].
   exact (entry_store_at f base h dh vptrs eptrs iptrs P k so tail ly data Hk Wso Ssz Tl Pl eq_refl Ld Fit Dat).
 Qed.
+(* ---- the same for a store whose schema has variants ---- *)
+Theorem stored_variant_entries_read_back_through_the_file
+  f base h dh vptrs eptrs iptrs store common vshapes vsize (rows : list vrow) k so j r :
+  dir_pack_at f base h dh vptrs eptrs iptrs ->
+  Forall (vrow_has_shape store common vshapes vsize) rows -> nth_error rows j = Some r ->
+  N.of_nat (length rows) < 2 ^ 32 -> vshapes <> [] -> (length vshapes <= 255)%nat ->
+  (length (common ++ variant_descrs vshapes) <= 255)%nat ->
+  N.of_nat (psize (raws common) + 1 + vsize) < 65536 ->
+  Forall wf_wprop (common ++ variant_descrs vshapes) -> no_vid common ->
+  Forall (fun v => no_vid (snd v) /\ psize (raws (snd v)) = vsize) vshapes ->
+  let tail := ser_variant_tail (N.of_nat (length rows)) (psize (raws common) + 1 + vsize) common vshapes in
+  let data := concat (map ser_vrow rows) in
+  nth_error eptrs k = Some so -> wf_sized_offset so -> so_size so = lenN tail ->
+  placed f (base + so_off so) tail -> lenN data + 4 <= so_off so -> placed f (base + so_off so - lenN data - 4) data ->
+  exists d ly dat e,
+    run f (dp_open_p base) = Ok d /\
+    run f (dp_entry_store_p d (N.of_nat k)) = Ok (ly, dat) /\
+    entry_bytes ly dat (N.of_nat j) = Some e /\
+    read_entry store ly e = (Some (N.of_nat (vr_vid r)), shown (vr_common r) ++ shown (vr_var r)).
+Proof.
+  intros P Hs Hj Hc Hne Hvn Hn He Hw Hcv Hvs tail data Hk Wso Ssz Tl Fit Dat.
+  set (ly := variant_layout (N.of_nat (length rows)) common vshapes vsize).
+  assert (Pl : parse_all p_layout tail = Ok ly).
+  { unfold parse_all. pose proof (variant_layout_parsed (N.of_nat (length rows)) common vshapes vsize [] Hc Hne Hvn Hn He Hw Hcv Hvs) as R.
+    rewrite app_nil_r in R. fold tail in R. rewrite R. reflexivity. }
+  assert (Ld : lenN data = l_count ly * N.of_nat (l_entry_size ly)).
+  { unfold ly, variant_layout. cbn [l_count l_entry_size]. unfold data, lenN.
+    assert (Hl : forall x, In x rows -> length (ser_vrow x) = (psize (raws common) + 1 + vsize)%nat).
+    { intros x Hx. rewrite Forall_forall in Hs. exact (ser_vrow_length store _ _ _ _ (Hs x Hx)). }
+    assert (Ln : length (concat (map ser_vrow rows)) = (length rows * (psize (raws common) + 1 + vsize))%nat).
+    { clear - Hl. induction rows as [|x rs IH]; [reflexivity|].
+      cbn [map concat length]. rewrite app_length, (Hl x (or_introl eq_refl)), IH by (intros y Hy; apply Hl; right; exact Hy). lia. }
+    rewrite Ln. lia. }
+  destruct (variant_entry_store_roundtrip store common vshapes vsize rows j r Hs Hj) as (e & He1 & He2).
+  eexists _, ly, data, e. split; [exact (dir_open_ok f base h dh vptrs eptrs iptrs P)|].
+  split; [|split; [exact He1|exact He2]].
+  exact (entry_store_at f base h dh vptrs eptrs iptrs P k so tail ly data Hk Wso Ssz Tl Pl eq_refl Ld Fit Dat).
+Qed.
+
+(* ---- value stores through the file: what the writer put under a key is what the reader gets ---- *)
+Theorem plain_value_reads_back_through_the_file f base h dh vptrs eptrs iptrs (vals : list (list N)) k so i v :
+  dir_pack_at f base h dh vptrs eptrs iptrs ->
+  nth_error vals i = Some v -> lenN (concat vals) < 2 ^ 64 ->
+  let tail := ser_vs_tail_plain (lenN (concat vals)) in
+  nth_error vptrs k = Some so -> wf_sized_offset so -> so_size so = lenN tail ->
+  placed f (base + so_off so) tail -> lenN (concat vals) + 4 <= so_off so ->
+  placed f (base + so_off so - lenN (concat vals) - 4) (concat vals) ->
+  exists d s, run f (dp_open_p base) = Ok d /\ run f (dp_value_store_p d (N.of_nat k)) = Ok s /\
+              vs_get s (lenN (concat (firstn i vals))) (Some (lenN v)) = Ok v.
+Proof.
+  intros P Hv Hsz tail Hk Wso Ssz Tl Fit Dat.
+  assert (Pl : parse_all p_vs_tail tail = Ok (VTPlain (lenN (concat vals)))).
+  { unfold parse_all. pose proof (p_vs_tail_plain (lenN (concat vals)) [] Hsz) as R. rewrite app_nil_r in R. fold tail in R. rewrite R. reflexivity. }
+  eexists _, (VSPlain (concat vals)). split; [exact (dir_open_ok f base h dh vptrs eptrs iptrs P)|]. split.
+  - exact (value_store_at f base h dh vptrs eptrs iptrs P k so tail _ (concat vals) Hk Wso Ssz Tl Pl eq_refl Fit Dat).
+  - apply plain_store_get. exact Hv.
+Qed.
+
+Theorem indexed_value_reads_back_through_the_file f base h dh vptrs eptrs iptrs (vals : list (list N)) w k so i v :
+  dir_pack_at f base h dh vptrs eptrs iptrs ->
+  nth_error vals i = Some v ->
+  (1 <= w <= 8)%nat -> N.of_nat (length vals) <= 65535 -> lenN (concat vals) < 256 ^ N.of_nat w ->
+  let tail := ser_vs_tail_indexed w (map lenN vals) in
+  nth_error vptrs k = Some so -> wf_sized_offset so -> so_size so = lenN tail ->
+  placed f (base + so_off so) tail -> lenN (concat vals) + 4 <= so_off so ->
+  placed f (base + so_off so - lenN (concat vals) - 4) (concat vals) ->
+  exists d s, run f (dp_open_p base) = Ok d /\ run f (dp_value_store_p d (N.of_nat k)) = Ok s /\
+              vs_get s (N.of_nat i) None = Ok v.
+Proof.
+  intros P Hv Hw Hn Hsz tail Hk Wso Ssz Tl Fit Dat.
+  assert (Hne : map lenN vals <> []) by (destruct vals; [destruct i; discriminate|discriminate]).
+  assert (Pl : parse_all p_vs_tail tail = Ok (VTIndexed (0 :: ends (map lenN vals)) (sumN (map lenN vals)))).
+  { unfold parse_all.
+    pose proof (p_vs_tail_indexed w (map lenN vals) [] Hw Hne ltac:(rewrite map_length; exact Hn) ltac:(rewrite sumN_lens; exact Hsz)) as R.
+    rewrite app_nil_r in R. fold tail in R. rewrite R. reflexivity. }
+  eexists _, (VSIndexed (0 :: ends (map lenN vals)) (concat vals)). split; [exact (dir_open_ok f base h dh vptrs eptrs iptrs P)|]. split.
+  - exact (value_store_at f base h dh vptrs eptrs iptrs P k so tail _ (concat vals) Hk Wso Ssz Tl Pl (eq_sym (sumN_lens vals)) Fit Dat).
+  - apply indexed_store_get. exact Hv.
+Qed.
+
 Close Scope N_scope.
 
 (* non-vacuity: a complete directory pack file laid out by hand (header, directory header, the entry data of
